@@ -85,6 +85,8 @@ func uniq(in []string) []string {
 // ---------- label names ----------
 
 type labelRes struct {
+	visiting map[*types.Var]bool
+	diverged string // set when two sources of one tag list disagree on the label names (a defect, not an unknown)
 	p      *Prog
 	tagFn  *ssa.Function // metrics.Tag
 	tType  types.Type    // metrics.T
@@ -328,6 +330,16 @@ func (lr *labelRes) sliceLabels(v ssa.Value, depth int) ([][]string, bool) {
 	case *ssa.UnOp:
 		if x.Op == token.MUL {
 			if fa, ok := x.X.(*ssa.FieldAddr); ok {
+				// a store that extends the field's own value (f = append(f, ..)) re-enters here: the field's own
+				// contribution is left out, what it appends makes the lists differ
+				if lr.visiting == nil {
+					lr.visiting = map[*types.Var]bool{}
+				}
+				if lr.visiting[fieldOf(fa)] {
+					return nil, true
+				}
+				lr.visiting[fieldOf(fa)] = true
+				defer delete(lr.visiting, fieldOf(fa))
 				var first [][]string
 				n := 0
 				for _, sv := range p.fieldStores(fieldOf(fa)) {
@@ -336,6 +348,7 @@ func (lr *labelRes) sliceLabels(v ssa.Value, depth int) ([][]string, bool) {
 						return nil, false
 					}
 					if n > 0 && fmt.Sprint(ls) != fmt.Sprint(first) {
+						lr.diverged = fmt.Sprintf("the tag list kept in field %s is assigned different label-name lists (%v and %v)", fieldOf(fa).Name(), first, ls)
 						return nil, false
 					}
 					first = ls
@@ -352,7 +365,8 @@ func (lr *labelRes) sliceLabels(v ssa.Value, depth int) ([][]string, bool) {
 				return nil, false
 			}
 			if i > 0 && fmt.Sprint(ls) != fmt.Sprint(first) {
-				// different label lists on different paths: merge position-wise is unsound; give up
+				// different label lists on different paths
+				lr.diverged = fmt.Sprintf("the tag list differs between paths (%v and %v)", first, ls)
 				return nil, false
 			}
 			first = ls
@@ -411,6 +425,8 @@ func checkC20(p *Prog, res *Result, tier string) {
 	res.rule("C20-R1", "every metric name is emitted with one kind and one set of label names at all emission sites; names and labels are valid, unique and not reserved", 80)
 	res.rule("C20-R2", "explicit aborts reachable in non-test repository code are exactly the accepted set", 3)
 	res.rule("C20-R3", "no request can leak an allocated revision (C04-R1..R3)", 10)
+	res.rule("C20-R7", "no request can wedge the node by making a goroutine wait for a lock it holds itself (C19-R5)", 1)
+	res.rule("C20-R6", "label values reach the prometheus client only through a UTF-8 sanitiser: request bytes used as a label value (a watched prefix) cannot make With() panic", 1)
 	res.rule("C20-R5", "no allocation is sized by an integer taken from a request (limit, revision, lease ...) without an upper bound: make() with such a size can exceed memory or panic outright", 3)
 	res.rule("C20-R4", "constant-index accesses to request-derived slices in the etcd request layer are dominated by a matching length test", 5)
 
@@ -475,7 +491,12 @@ func checkC20(p *Prog, res *Result, tier string) {
 				res.und("C20-R1", construct, p.pos(c.Pos()), "metric name is not a resolvable constant")
 				continue
 			}
+			lr.diverged = ""
 			ls, ok := lr.sliceLabels(cc.Args[2], 0)
+			if !ok && lr.diverged != "" {
+				res.bad("C20-R1", construct, p.pos(c.Pos()), lr.diverged+": the metric vector is created with the label names of the first emission, any other set panics in With() (inconsistent label cardinality)")
+				continue
+			}
 			if !ok {
 				if !p.reachableFromMain()[f] {
 					res.ok("C20-R1", construct, p.pos(c.Pos()), "dynamic labels, but the enclosing function is unreachable from main (RTA over the repo)")
@@ -595,6 +616,10 @@ func checkC20(p *Prog, res *Result, tier string) {
 	// ---- R4: guarded constant indexing in the etcd request layer ----
 	checkGuardedIndexing(p, res)
 	checkRequestSizedAllocations(p, res)
+	checkLabelValueSanitised(p, res)
+	// R7: self-deadlock (C19-R5)
+	checkSelfDeadlock(p, p.lockContext(), res, "C20-R7")
+
 }
 
 // Explicit aborts (panic, klog.Fatal*, log.Fatal*/Panic*, os.Exit, *OrDie of a dependency) are classified by where they
@@ -1071,4 +1096,117 @@ func (p *Prog) allocSitesOf(v ssa.Value, depth int, seen map[ssa.Value]bool) ([]
 		}
 	}
 	return out, true
+}
+
+
+// ---------- R6: label values are sanitised ----------
+
+// checkLabelValueSanitised: every map handed to a prometheus vector's With() is built (in the wrapper, possibly in a
+// helper) from values that are constants or results of strings.ToValidUTF8 / ToValidUTF8-like sanitisers.
+func checkLabelValueSanitised(p *Prog, res *Result) {
+	pp := p.ssaPkg("pkg/metrics/prometheus")
+	if pp == nil {
+		res.und("C20-R6", "prometheus wrapper", "-", "package not found")
+		return
+	}
+	isSanitised := func(v ssa.Value) bool {
+		v = resolve(v)
+		if _, isC := v.(*ssa.Const); isC {
+			return true
+		}
+		if c, ok := v.(*ssa.Call); ok {
+			if sc := c.Common().StaticCallee(); sc != nil && sc.Pkg != nil {
+				full := sc.Pkg.Pkg.Path() + "." + sc.Name()
+				if full == "strings.ToValidUTF8" || full == "bytes.ToValidUTF8" {
+					return true
+				}
+			}
+		}
+		return false
+	}
+	n := 0
+	for _, f := range p.AllFuncs {
+		if f.Pkg != pp || f.Synthetic != "" {
+			continue
+		}
+		k := 0
+		for _, c := range callsIn(f) {
+			sc := c.Common().StaticCallee()
+			if sc == nil || sc.Name() != "With" || sc.Pkg == nil || !strings.Contains(sc.Pkg.Pkg.Path(), "client_golang/prometheus") {
+				continue
+			}
+			k++
+			n++
+			construct := fmt.Sprintf("%s: label values of With() #%d", funcName(f), k)
+			// the map argument: built here or returned by a helper of the wrapper
+			var maps []*ssa.MakeMap
+			var collect func(v ssa.Value, d int) bool
+			collect = func(v ssa.Value, d int) bool {
+				if d > 4 {
+					return false
+				}
+				okAll := true
+				for _, x := range allCellValuesOpt(p, v, false) {
+					switch y := x.(type) {
+					case *ssa.MakeMap:
+						maps = append(maps, y)
+					case *ssa.ChangeType:
+						okAll = collect(y.X, d+1) && okAll
+					case *ssa.Call:
+						h := y.Common().StaticCallee()
+						if h == nil || h.Blocks == nil || h.Pkg != pp {
+							okAll = false
+							continue
+						}
+						for _, b := range h.Blocks {
+							if ret, ok := b.Instrs[len(b.Instrs)-1].(*ssa.Return); ok && len(ret.Results) > 0 {
+								okAll = collect(ret.Results[0], d+1) && okAll
+							}
+						}
+					case *ssa.Const:
+					default:
+						okAll = false
+					}
+				}
+				return okAll
+			}
+			args := c.Common().Args
+			if !collect(args[len(args)-1], 0) || len(maps) == 0 {
+				res.und("C20-R6", construct, p.pos(c.Pos()), "the label map handed to With() is not built by the wrapper itself")
+				continue
+			}
+			bad := ""
+			for _, m := range maps {
+				for _, ref := range *m.Referrers() {
+					if mu, ok := ref.(*ssa.MapUpdate); ok && mu.Map == ssa.Value(m) && !isSanitised(mu.Value) {
+						bad = p.pos(mu.Pos())
+					}
+				}
+				// the map may live in a named result cell: updates go through loads of that cell
+				for _, ref := range *m.Referrers() {
+					if st, ok := ref.(*ssa.Store); ok {
+						if cell, ok := st.Addr.(*ssa.Alloc); ok {
+							for _, r2 := range *cell.Referrers() {
+								if ld, ok := r2.(*ssa.UnOp); ok {
+									for _, r3 := range *ld.Referrers() {
+										if mu, ok := r3.(*ssa.MapUpdate); ok && !isSanitised(mu.Value) {
+											bad = p.pos(mu.Pos())
+										}
+									}
+								}
+							}
+						}
+					}
+				}
+			}
+			if bad == "" {
+				res.ok("C20-R6", construct, p.pos(c.Pos()), "every value stored into the label map is a constant or passes strings.ToValidUTF8")
+			} else {
+				res.bad("C20-R6", construct, bad, "a label value reaches prometheus without UTF-8 sanitising: label values can be request bytes (the watched prefix); an invalid one makes With() panic and the node crash")
+			}
+		}
+	}
+	if n == 0 {
+		res.und("C20-R6", "prometheus wrapper", "-", "no With() call found")
+	}
 }
